@@ -123,6 +123,9 @@ ParamAtoms ==
          O(KV("description", S("problem")) @@ KV("schema", PetRef)), 1),
     Atom("param", "h@shared=R_default", "param:op:header:X-H", "shared", "R_default", Prm("header", "X-H", FALSE, KV("type", S("string")) @@ KV("enum", A(<<S("ab"), S("b")>>))),
          O(KV("description", S("problem")) @@ KV("headers", O(KV("X-Why", O(KV("type", S("string"))))))), 2),
+    \* a binary string parameter with one more keyword (in quick too; FieldK = 2 sweeps all such pairs)
+    Atom("param", "q@op:binary&maxLength", "param:op:query:q", "op", "",
+         Prm("query", "q", FALSE, KV("type", S("string")) @@ KV("format", S("binary")) @@ KV("maxLength", I(5))), Nul, 2),
     Atom("param", "q2@op:boolean", "param:op:query:a2", "op", "", Prm("query", "a2", FALSE, KV("type", S("boolean"))), Nul, 1),
     Atom("param", "body@query", "param:op2:query:body", "op2", "", Prm("query", "body", FALSE, KV("type", S("string"))), Nul, 1),
     \* both names FromV3 tries for a body parameter are taken by query parameters (x carries the second parameter)
@@ -131,6 +134,7 @@ ParamAtoms ==
     Atom("param", "z@op2:query", "param:op2:query:zz", "op2", "", Prm("query", "zz", TRUE, KV("type", S("integer")) @@ KV("minimum", I(1))), Nul, 2)}
 
 (* ----------------------------------------------------------------- form atoms *)
+Ext == KV("x-internal-id", S("u1"))
 FormAtoms ==
    {Atom("form", "f1@op:" \o p.id, "form:f1", "op", "", Prm("formData", "f1", FALSE, p.f), Nul,
          IF p.nk <= 1 THEN 2 ELSE 3) : p \in PL(FieldK)}
@@ -144,7 +148,16 @@ FormAtoms ==
          Atom("form", "f1@shared:required", "form:f1", "shared", "F_f1", Prm("formData", "f1", TRUE, KV("type", S("string")) @@ KV("pattern", S("^a"))), Nul, 1),
          Atom("form", "f2@shared:integer", "form:f2", "shared", "F_f2", Prm("formData", "f2", FALSE, KV("type", S("integer"))), Nul, 2),
          Atom("form", "file@shared", "form:file", "shared", "F_file", Prm("formData", "file", FALSE, KV("type", S("file"))), Nul, 2),
-         Atom("form", "file@shared:required", "form:file", "shared", "F_file", Prm("formData", "file", TRUE, KV("type", S("file"))), Nul, 1)}
+         Atom("form", "file@shared:required", "form:file", "shared", "F_file", Prm("formData", "file", TRUE, KV("type", S("file"))), Nul, 1),
+         \* shared form parameters stored under a key unlike their name, carrying a vendor extension of their own
+         \* (so the converter's x-formData-name marker has to be added next to it); the same inline
+         Atom("form", "f1@shared+ext", "form:f1", "shared", "UploadTitle", Prm("formData", "f1", FALSE, KV("type", S("string")) @@ KV("minLength", I(1)) @@ Ext), Nul, 1),
+         Atom("form", "f1@shared+ext:required", "form:f1", "shared", "UploadTitle", Prm("formData", "f1", TRUE, KV("type", S("string")) @@ KV("maxLength", I(5)) @@ Ext), Nul, 1),
+         Atom("form", "f2@shared+ext:required", "form:f2", "shared", "UploadCount", Prm("formData", "f2", TRUE, KV("type", S("integer")) @@ KV("minimum", I(1)) @@ Ext), Nul, 2),
+         Atom("form", "file@shared+ext", "form:file", "shared", "UploadBlob", Prm("formData", "file", FALSE, KV("type", S("file")) @@ Ext), Nul, 2),
+         Atom("form", "file@shared+ext:required", "form:file", "shared", "UploadBlob", Prm("formData", "file", TRUE, KV("type", S("file")) @@ Ext), Nul, 1),
+         Atom("form", "f1@op+ext:required", "form:f1", "op", "", Prm("formData", "f1", TRUE, KV("type", S("string")) @@ Ext), Nul, 2),
+         Atom("form", "file@op+ext", "form:file", "op", "", Prm("formData", "file", FALSE, KV("type", S("file")) @@ Ext), Nul, 2)}
 
 (* ------------------------------------------------------------------- schemas *)
 Sc(id, s, c) == [id |-> id, s |-> s, c |-> c]
@@ -261,6 +274,8 @@ ServerAtoms ==
     Srv("host+https", "api.example.com", "", <<"https">>, 2),
     Srv("host+base+https", "api.example.com", "/v1", <<"https">>, 1),
     Srv("host+base+http", "api.example.com:8080", "/v1", <<"http">>, 2),
+    Srv("host:8443+base+https", "api.example.com:8443", "/v1", <<"https">>, 1),
+    Srv("host:8443", "api.example.com:8443", "", <<>>, 2),
     Srv("host+base+both", "api.example.com", "/v1", <<"https", "http">>, 1),
     Srv("host+slash+https", "api.example.com", "/", <<"https">>, 3),
     Srv("host+ws", "api.example.com", "/v1", <<"ws">>, 3),
